@@ -79,6 +79,7 @@ TNext ==
        CASE e.ev = "reset" ->
               \* a fresh calculator configured through the setters; the driver's day
               /\ calc' = (IF "alias" \in DOMAIN e THEN [CalcOf(e.cfg) EXCEPT !.alias = e.alias, !.codes = {e.codes[i] : i \in DOMAIN e.codes}]
+                          ELSE IF "zones" \in DOMAIN e THEN [CalcOf(e.cfg) EXCEPT !.zones = e.zones]
                           ELSE CalcOf(e.cfg))
               /\ sess' = <<>> /\ today' = e.today /\ run' = NoRun
               /\ last' = [call |-> "reset"] /\ bad' = bad
@@ -107,6 +108,10 @@ TNext ==
               \* the printed form of a value of kind e.kind under the calculator's current format settings (C07)
               /\ LET allowed == Printed(e.kind, e.v, FormatOf(e), e.deco) IN Judge(e.out \in allowed, <<[k |-> "format", allowed |-> allowed]>>)
               /\ last' = [call |-> "format"] /\ UNCHANGED <<calc, sess, run, today>>
+         [] e.ev = "set_tz" ->
+              /\ SetTimezone(e.w)
+              /\ LET z == ZoneOfSpelling(e.w) IN
+                   Judge(e.ret = B(z.ok) /\ (z.ok => (e.name = z.name /\ e.off = z.off)), <<[k |-> "set_tz", ok |-> z.ok, name |-> z.name, off |-> z.off]>>)
          [] e.ev = "set_dec" -> SetDecimalSep(e.v) /\ bad' = bad
          [] e.ev = "set_tho" -> SetThousandSep(e.v) /\ bad' = bad
          [] e.ev = "set_num" -> SetNumberCfg([d |-> e.d, remove |-> e.remove, round |-> e.round]) /\ bad' = bad
